@@ -4,6 +4,7 @@ package c03
 import (
 	"encoding/json"
 	"fmt"
+	"strconv"
 	"strings"
 	"testing"
 	"unicode"
@@ -109,6 +110,7 @@ type outcome struct {
 	attrs   string
 	seed    string
 	st      string
+	calc    string // IsCalculateExists(): whether the consumed text computes anything
 }
 
 func runOne(vm *ds.Context, src string, log *[]stEvent) outcome {
@@ -125,6 +127,7 @@ func runOne(vm *ds.Context, src string, log *[]stEvent) outcome {
 		o.rest = vm.RestInput
 		o.detail = vm.GetDetailText()
 		o.detail2 = vm.GetDetailText()
+		o.calc = strconv.FormatBool(vm.IsCalculateExists())
 		o.attrs = vmx.AttrsRepr(vm)
 		o.seed = vmx.SeedHex(vm)
 		b, _ := json.Marshal(*log)
@@ -210,7 +213,7 @@ func checkCase(c Case, s *rt.Section) *rt.Failure {
 		return s.NewFailure("matched-alone", "c03:alone-rest/"+rc, c, fmt.Sprintf("Matched=%q alone leaves Matched=%q Rest=%q", o1.matched, o2.matched, o2.rest), "Matched alone is consumed entirely")
 	}
 	type cmp struct{ what, a, b string }
-	for _, x := range []cmp{{"ret", o1.ret, o2.ret}, {"attrs", o1.attrs, o2.attrs}, {"detail", o1.detail, o2.detail}, {"seed", o1.seed, o2.seed}, {"st", o1.st, o2.st}} {
+	for _, x := range []cmp{{"ret", o1.ret, o2.ret}, {"attrs", o1.attrs, o2.attrs}, {"detail", o1.detail, o2.detail}, {"seed", o1.seed, o2.seed}, {"st", o1.st, o2.st}, {"calculates", o1.calc, o2.calc}} {
 		if x.a != x.b {
 			if sameModuloDictOrder(x.a, x.b) {
 				s.Class("detail-differs-only-in-dict-order")
